@@ -126,6 +126,56 @@ CHECKS.append({
             "the definitions over the proved component count. Theorems are at Rat; IEEE rounding is outside them.",
 })
 
+CHECKS.append({
+    "property_id": "C13",
+    "category": "proof",
+    "technique": "Lean 4 proofs about executable mirrors of kruskal, prim and UnionFind (structure AND minimality for every "
+                 "input) + verified certificate checkers (cycle property) on the implementation's own trees + R_trace",
+    "text": "kruskal_forest, kruskal_minimal, prim_tree, prim_minimal, kruskal_prim_agree, kruskalUF_eq (the literal "
+            "parent/rank union-find mirror equals the label model) hold for every input: the mirrors return n-1 input edges "
+            "forming an acyclic spanning tree of minimum weight with objective = sum of weights, INFEASIBLE / minimum forest + "
+            "FEASIBLE on disconnected inputs. msf_cycle_cert / mst_cycle_cert, chkSpanningTree_iff, chkSpanningForest_iff make "
+            "every explored implementation output carry a proof of minimality of the implementation's own tree; status, edge "
+            "list and objective must equal the mirror's. Break/short-result offsets are regenerated from mst.py.",
+    "note": "Weights integers or dyadic rationals (exact float sums); stable sort modelled by insertion sort and the heap by "
+            "pop-least (weight, counter), tied by R_trace; label->int mapping trusted; mstBrute (<= 12 edges) only a bounded "
+            "cross-check of the specification.",
+})
+
+CHECKS.append({
+    "property_id": "C11",
+    "category": "proof",
+    "technique": "Lean 4 proofs about executable mirrors of all seven path solvers (certificate theorems + algorithm-level "
+                 "theorems for every input) + verified certificate checkers on every implementation answer + R_trace",
+    "text": "bellman_ford_correct, bf_rounds_bound, bfs_correct, dfs_path_valid, dijkstra_certifies, astar_certifies (consistent "
+            "heuristic), floyd_warshall_certifies, dijkstra_sound_any_weights, astar_sound_any_heuristic and the certificate "
+            "theorems potential_lower_bound, path_upper_bound, dist_exact_cert, closed_set_unreachable, neg_cycle_cert, "
+            "zsqrt2_order_embedding, grid_dist_exact_cert hold for every digraph, start, goal set, max_iter and max_cost. On "
+            "every run dijkstra, astar, astar_grid (exact Z[sqrt2] optimum within 1e-9(1+cost)), bfs, dfs, bellman_ford, "
+            "floyd_warshall and the _edges wrappers (backend='python') are compared with the mirrors and their answers decided "
+            "by the verified checkers distCert, pathOK, unreachCert, lowerCert, negCycleCert.",
+    "note": "heapq/dict/set modelled (pop-least-key); the grid reference optimum is certificate-checked per input, the IEEE "
+            "Float mirror of astar_grid is tied by R_trace only; integer / dyadic weights.",
+})
+
+CHECKS.append({
+    "property_id": "C18",
+    "category": "proof",
+    "technique": "Lean 4 proof of an abstract dispatch machine (any chooser / choice sequence) and of the VRP bookkeeping "
+                 "skeleton (remove / insert / recompute transitions preserve the invariant) + per-step refinement check of the "
+                 "real operators with verified checkers",
+    "text": "dispatch_valid, dispatch_chooser_valid, dispatch_rule_valid, rebuild_valid, local_search_valid, "
+            "solve_job_shop_valid: for every choice sequence / rule / drawn-machine sequence the job-shop mirrors return a valid "
+            "schedule whose objective is its latest end. vrp_inv_step / vrp_inv_run / vrp_inv_init: every abstract transition "
+            "sequence preserves the customer bookkeeping invariant; arrival_consistent, objective_formula. On every run each "
+            "returned schedule, each recorded destroy/repair step (ALNS replayed with recording wrappers, direct operator "
+            "calls, scripted sequences) and each state is judged by the verified checkers chkSchedule, chkInv, isRemove, "
+            "isInsertRun, chkArrivals, chkObjective.",
+    "note": "RNG, hypot and the insertion heuristics are transition payload (not modelled); floats compared with exact rational "
+            "recomputation within 1e-6; customer ids must be their 1-based position and required_vehicles >= 1 (excluded region "
+            "is run and recorded only).",
+})
+
 _PENDING = "check not built yet in this round (planned in DESIGN.md §4); no claim made"
 NOT_APPLICABLE = [
     {"property_id": f"C{i:02d}", "reason": _PENDING}
